@@ -28,6 +28,12 @@ Cfg(ts, did, mn, mx) == [ts |-> ts, pid |-> IF ts THEN 291 ELSE 0, did |-> did, 
 CfgsQ == {Cfg(FALSE, 153, 40, 50), Cfg(TRUE, 16, 40, 40), Cfg(TRUE, 153, 40, 60)}
 CfgsT == {Cfg(ts, did, sz[1], sz[2]) : ts \in BOOLEAN, did \in {16, 153}, sz \in {<<40, 40>>, <<40, 60>>, <<50, 80>>}}
 
+\* reconfiguration between calls (MC_DvbMux_rq / _rt / _wt): requests to vbi_dvb_mux_set_pes_packet_size (rounded by RoundSizes)
+SizesRQ == {<<35, 69>>}                               \* -> (40, 60)
+SizesRT == {<<40, 40>>, <<35, 69>>, <<50, 80>>}
+CfgsR == {Cfg(FALSE, 153, 40, 50), Cfg(TRUE, 16, 40, 40), Cfg(TRUE, 153, 50, 80), Cfg(FALSE, 16, 40, 60)}
+ASSUME RoundSizes(35, 69) = <<40, 60>>
+
 \* vbi_dvb_mux_set_pes_packet_size rounds to the grid of transport packets
 ASSUME RoundSizes(0, 0) = <<10, 10>> /\ RoundSizes(41, 59) = <<50, 50>> /\ RoundSizes(40, 65) = <<40, 60>> /\ RoundSizes(1, 99999) = <<10, MaxPes>>
 \* the bounds are not vacuous
